@@ -134,6 +134,7 @@ int main(int argc, char **argv) {
         else if (a == "--no-slice") opt.noSlice = true;
         else if (a == "--profile") opt.profile = true;
         else if (a == "--dump-unknown") opt.dumpDir = nx();
+        else if (a == "--dump-all") { opt.dumpDir = nx(); opt.dumpAll = true; }
         else if (a == "--fix") { std::string kv = nx(); size_t e = kv.find('='); if (e != std::string::npos) opt.fixedChoice[kv.substr(0, e)] = std::stoull(kv.substr(e + 1)); }
         else if (a == "--no-replace") opt.noReplace.insert(nx());
         else if (a == "--known") { std::string l = nx(); size_t p0 = 0; while (p0 <= l.size()) { size_t c = l.find(',', p0); if (c == std::string::npos) c = l.size(); if (c > p0) opt.knownIds.insert(l.substr(p0, c - p0)); p0 = c + 1; } }
